@@ -66,7 +66,7 @@ let print_obs o =
   | ONull (s, sz) -> Printf.printf "NULL %d %d\n" (n s) (i sz)
   | OGone s -> Printf.printf "GONE %d\n" (n s)
   | OVec (s, sz, cap, cons, aid, bid, db, de, fixed, elems) ->
-      Printf.printf "VEC %d %d %d %d %d %d %d %d F %s\n" (n s) (i sz) (i cap) (i cons) (i aid) (n bid) (i db) (i de) (zs fixed);
+      Printf.printf "VEC %d %d %d %d %d %d %d %d F%s\n" (n s) (i sz) (i cap) (i cons) (i aid) (n bid) (i db) (i de) (String.concat "" (List.map (fun z -> " " ^ string_of_int (int_of_z z)) fixed));
       List.iteri (fun k (off, fields) ->
         Printf.printf "E %d %d\n" k (i off);
         List.iteri (fun f (fo, objs) ->
@@ -74,70 +74,82 @@ let print_obs o =
 
 let tokens line = List.filter (fun s -> s <> "") (String.split_on_char ' ' (String.trim line))
 
+let parse_op params toks =
+  let ints l = List.map int_of_string l in
+  let take n l = let rec go n l acc = if n = 0 then (List.rev acc, l) else match l with x :: r -> go (n-1) r (x :: acc) | [] -> failwith "short" in go n l [] in
+  let nat s = nat_of_int (int_of_string s) and z s = z_of_int (int_of_string s) in
+  match toks with
+  | "mkvec" :: r -> (match ints r with s :: cap :: bud :: aid :: nf :: r -> let (f, _) = take nf r in
+        OpMkVec (nat_of_int s, z_of_int cap, z_of_int bud, List.map z_of_int f, z_of_int aid) | _ -> failwith "mkvec")
+  | "default" :: [s] -> OpDefault (nat s)
+  | "emplace" :: r ->
+      (match ints r with s :: rest ->
+        let rest = ref rest in
+        let vals = List.map (fun p ->
+          match !rest with
+          | nobj :: r ->
+              rest := r;
+              let sz = int_of_z p.psz in
+              List.init nobj (fun _ -> let (o, r) = take sz !rest in rest := r; List.map z_of_int o)
+          | [] -> failwith "emplace") params in
+        OpEmplace (nat_of_int s, vals)
+      | _ -> failwith "emplace")
+  | "popback" :: [s] -> OpPopBack (nat s)
+  | "erase" :: [s; i] -> OpErase (nat s, z i)
+  | "eraserange" :: [s; i; j] -> OpEraseRange (nat s, z i, z j)
+  | "clear" :: [s] -> OpClear (nat s)
+  | "reserve" :: [s; n; b] -> OpReserve (nat s, z n, z b)
+  | "destroy" :: [s] -> OpDestroy (nat s)
+  | "copyctor" :: [d; s] -> OpCopyCtor (nat d, nat s)
+  | "copyassign" :: [d; s] -> OpCopyAssign (nat d, nat s)
+  | "movector" :: [d; s] -> OpMoveCtor (nat d, nat s)
+  | "moveassign" :: [d; s] -> OpMoveAssign (nat d, nat s)
+  | "swap" :: [a; b] -> OpSwap (nat a, nat b)
+  | "junk" :: [b] -> OpJunk (z b)
+  | "observe" :: [s] -> OpObserve (nat s)
+  | t :: _ -> failwith ("unknown op " ^ t)
+  | [] -> failwith "empty"
+
 let () =
   let file = Sys.argv.(1) in
   let ic = open_in file in
-  let params = ref [] and ops = ref [] in
+  let params = ref [] in
   let k = ref { pocca = false; pocma = false; pocs = false; always_eq = true; soccc_bump = false } in
   let statics = ref [] in
+  let scripts = ref [] in          (* (id, ops) reversed *)
+  let cur = ref None in
   let ints l = List.map int_of_string l in
   let take n l = let rec go n l acc = if n = 0 then (List.rev acc, l) else match l with x :: r -> go (n-1) r (x :: acc) | [] -> failwith "short" in go n l [] in
   (try while true do
     let line = input_line ic in
     match tokens line with
     | [] -> ()
-    | "#" :: _ -> ()
+    | t :: _ when String.length t > 0 && t.[0] = '#' -> ()
     | "K" :: r -> (match ints r with [a;b;c;d;e] -> k := { pocca = a<>0; pocma = b<>0; pocs = c<>0; always_eq = d<>0; soccc_bump = e<>0 } | _ -> failwith "K")
     | "P" :: r -> (match ints r with [kd;sz;al;ty] -> params := { pk = kind_of_int kd; psz = z_of_int sz; pal = z_of_int al; pty = ty_of_int ty } :: !params | _ -> failwith "P")
-    | "static" :: r -> let l = ints r in (match l with nf :: r -> let (f, _) = take nf r in statics := `Static f :: !statics | _ -> failwith "static")
+    | "static" :: r -> (match ints r with nf :: r -> let (f, _) = take nf r in statics := `Static f :: !statics | _ -> failwith "static")
     | "needed" :: r -> (match ints r with n :: b :: nf :: r -> let (f, _) = take nf r in statics := `Needed (n, b, f) :: !statics | _ -> failwith "needed")
-    | "mkvec" :: r -> (match ints r with s :: cap :: bud :: aid :: nf :: r -> let (f, _) = take nf r in
-          ops := OpMkVec (nat_of_int s, z_of_int cap, z_of_int bud, List.map z_of_int f, z_of_int aid) :: !ops | _ -> failwith "mkvec")
-    | "default" :: [s] -> ops := OpDefault (nat_of_int (int_of_string s)) :: !ops
-    | "emplace" :: r ->
-        let l = ints r in
-        (match l with s :: rest ->
-          let ps = List.rev !params in
-          let rest = ref rest in
-          let vals = List.map (fun p ->
-            match !rest with
-            | nobj :: r ->
-                rest := r;
-                let sz = int_of_z p.psz in
-                let objs = List.init nobj (fun _ -> let (o, r) = take sz !rest in rest := r; List.map z_of_int o) in
-                objs
-            | [] -> failwith "emplace") ps in
-          ops := OpEmplace (nat_of_int s, vals) :: !ops
-        | _ -> failwith "emplace")
-    | "popback" :: [s] -> ops := OpPopBack (nat_of_int (int_of_string s)) :: !ops
-    | "erase" :: [s; i] -> ops := OpErase (nat_of_int (int_of_string s), z_of_int (int_of_string i)) :: !ops
-    | "eraserange" :: [s; i; j] -> ops := OpEraseRange (nat_of_int (int_of_string s), z_of_int (int_of_string i), z_of_int (int_of_string j)) :: !ops
-    | "clear" :: [s] -> ops := OpClear (nat_of_int (int_of_string s)) :: !ops
-    | "reserve" :: [s; n; b] -> ops := OpReserve (nat_of_int (int_of_string s), z_of_int (int_of_string n), z_of_int (int_of_string b)) :: !ops
-    | "destroy" :: [s] -> ops := OpDestroy (nat_of_int (int_of_string s)) :: !ops
-    | "copyctor" :: [d; s] -> ops := OpCopyCtor (nat_of_int (int_of_string d), nat_of_int (int_of_string s)) :: !ops
-    | "copyassign" :: [d; s] -> ops := OpCopyAssign (nat_of_int (int_of_string d), nat_of_int (int_of_string s)) :: !ops
-    | "movector" :: [d; s] -> ops := OpMoveCtor (nat_of_int (int_of_string d), nat_of_int (int_of_string s)) :: !ops
-    | "moveassign" :: [d; s] -> ops := OpMoveAssign (nat_of_int (int_of_string d), nat_of_int (int_of_string s)) :: !ops
-    | "swap" :: [a; b] -> ops := OpSwap (nat_of_int (int_of_string a), nat_of_int (int_of_string b)) :: !ops
-    | "junk" :: [b] -> ops := OpJunk (z_of_int (int_of_string b)) :: !ops
-    | "observe" :: [s] -> ops := OpObserve (nat_of_int (int_of_string s)) :: !ops
-    | t :: _ -> failwith ("unknown op " ^ t)
+    | "BEGIN" :: [id] -> cur := Some (id, [])
+    | "END" :: _ -> (match !cur with Some (id, ops) -> scripts := (id, List.rev ops) :: !scripts; cur := None | None -> ())
+    | toks -> (match !cur with
+               | Some (id, ops) -> cur := Some (id, parse_op (List.rev !params) toks :: ops)
+               | None -> failwith "op outside script")
   done with End_of_file -> ());
   close_in ic;
   let l = List.rev !params in
-  if l <> [] then begin
-    Printf.printf "WF %d\n" (if wf_plist l then 1 else 0);
-    Printf.printf "SA %d\n" (int_of_z (sA l));
-    Printf.printf "LARGEST %s\n" (zs (largest l));
-    Printf.printf "TRAILS %s\n" (zs (trails l));
-  end;
+  Printf.printf "SA %d\n" (int_of_z (sA l));
+  Printf.printf "LARGEST %s\n" (zs (largest l));
+  Printf.printf "TRAILS %s\n" (zs (trails l));
   List.iter (function
     | `Static f ->
         let (sz, st) = esize l (List.map z_of_int f) in
-        Printf.printf "ESIZE %s : %d %d\n" (String.concat " " (List.map string_of_int f)) (int_of_z sz) (int_of_z st)
+        Printf.printf "ESIZE%s : %d %d\n" (String.concat "" (List.map (fun x -> " " ^ string_of_int x) f)) (int_of_z sz) (int_of_z st)
     | `Needed (n, b, f) ->
         let e = esize l (List.map z_of_int f) in
         let nd = needed (z_of_int n) (z_of_int b) e in
         Printf.printf "NEEDED %d %d : %d %d\n" n b (int_of_z nd) (int_of_z (units l nd))) (List.rev !statics);
-  List.iter print_obs (run !k l (List.rev !ops))
+  List.iter (fun (id, ops) ->
+    Printf.printf "BEGIN %s\n" id;
+    (try List.iter print_obs (run !k l ops)
+     with Stack_overflow | Out_of_memory -> Printf.printf "MODELFAIL\n");
+    Printf.printf "END\n") (List.rev !scripts)
